@@ -7,6 +7,7 @@ def run(ctx):
     accept.rule_delegation_pairs(ctx)
     accept.rule_list_quantifiers(ctx)
     accept.rule_every_listed_argument(ctx)
+    accept.rule_single_member_read_guarded(ctx)
     ctx.assume("modelled std functions of sa/tags.py (iterator adaptors, Vec push/append, vec!, iter::once/chain); everything else is reported as `cannot analyse`")
     ctx.assume("SAT semantics: a clause is a disjunction, assumptions are a conjunction")
     return (
